@@ -85,3 +85,18 @@ def main():
                      'shapes: list lengths 0..2 (recursive inputs: 0..1), input recursion depth 2, strings concrete (quick)',
                      'operations: the catalogue under kgen/catalogue'],
         jobs=6, pre=attribute_part)
+
+
+def replay(path):
+    def other(p):
+        import consumer
+        C = consumer.Consumer(vc.scratch(PROP + 'r'))
+        attrs = 'skip_serializing_none, ' if p['model'].get('skip_serializing_none') else ''
+        err = C.build(p['schema'], p['query'], 'Q', 'q', attrs=attrs)
+        if err:
+            print('does not compile: ' + err[-300:])
+            return 1
+        res = C.run('variables', [p['payload']]) if 'payload' in p else []
+        print(json.dumps(res)[:600])
+        return 1
+    return krun.replay_generic(PROP, build, lambda v: v == 'Ok', path, other=other)
